@@ -108,6 +108,16 @@ CHECKS = {
              "delivered before completion. Windows the sentence leaves open are accepted narrowly and counted as probes.",
         note="Trusts: SimLoop timing (zero scheduling noise); slow-callback family is checked for order/values/prefix only.",
         technique=TECH + "; bounded-liveness and exactly-once oracles in virtual time"),
+    "C15": dict(
+        level="exploration", ref="DESIGN.md section 5 C15",
+        text="One generated conversation (initialize + list/call/read/get/ping/raw exchanges, results with nested Unicode and nulls, error "
+             "replies with data of several JSON types, 0..3 notifications before each response, string and integer ids incl. negative and > 2^53) "
+             "is compiled to all four carriers - stdio on FakeProcess, Streamable HTTP with JSON bodies, Streamable HTTP with SSE bodies, legacy "
+             "SSE - each the real transport over its fake, with the same real request helpers on top; only latency and chunking differ. Oracle: "
+             "differential equality of the normalised read-stream transcript and the helper outcomes (stdio as reference), and each carrier "
+             "against the conversation itself so that two carriers cannot agree on a wrong answer.",
+        note="Trusts: the fakes; fault-free by construction; JSON-body HTTP only runs conversations without interleaved notifications.",
+        technique=TECH + "; differential execution of one conversation over four simulated carriers"),
     "C16": dict(
         level="fault_enumeration", ref="DESIGN.md section 5 C16",
         text="Systematic product {11 child behaviours: well-behaved, exits early / after k lines, ignores SIGTERM, never reads, floods, closes "
